@@ -156,6 +156,9 @@ func (acl *ACL) RegisterConnection(conn *net.Conn) {
 }
 
 func (acl *ACL) SetUser(cmd []string) error {
+	if len(cmd) == 0 || len(cmd[0]) == 0 {
+		return errors.New("username is required")
+	}
 	// A key or channel pattern that does not compile is refused before anything is changed.
 	if err := ValidateRules(cmd); err != nil {
 		return err
